@@ -46,6 +46,27 @@ def parseOut (s : String) : Option Out :=
 def outClass : Out → String
   | .ok _ => "ok" | .errSrc => "errSrc" | .panicSrc => "panicSrc" | .errDst => "errDst" | .panicDst => "panicDst"
 
+def parseInput (sk dk s d nonce rid a1 a2 : String) : Option Input := do
+  let sk' ← parseSk sk
+  let dk' ← parseDk dk
+  let s ← s.toNat?
+  let d ← d.toNat?
+  let nonce ← nonce.toNat?
+  let rid ← fromHex rid
+  match sk' with
+  | .sub => do
+    let cd ← fromHex a1
+    let tt ← a2.toNat?
+    pure ⟨sk', dk', ⟨s, d, nonce, rid⟩, cd, [], tt⟩
+  | .btc => do
+    let sat ← a1.toNat?
+    let text ← fromHex a2
+    pure ⟨sk', dk', ⟨s, d, nonce, rid⟩, text, [], sat⟩
+  | _ => do
+    let cd ← fromHex a1
+    let resp ← fromHex a2
+    pure ⟨sk', dk', ⟨s, d, nonce, rid⟩, cd, resp, 0⟩
+
 def handle (op : String) (args : List String) (impl : String) : Option Verdict :=
   match op, args with
   | "relay", [sk, dk, s, d, nonce, rid, a1, a2] => some <| Id.run do
@@ -75,6 +96,19 @@ def handle (op : String) (args : List String) (impl : String) : Option Verdict :
       | some o => decide (P01 inp o)
       | none => false
     return ⟨showOut m, ok, s!"{sk}>{dk}:{if wf then "wf" else "nwf"}:{outClass m}"⟩
+  -- two deposits relayed one after the other, both proposals inspected only after the second exists
+  -- (a proposal must not change when a later message is handled)
+  | "relay2", [sk, dk, s, d, nonce, rid, a1, a2, sk2, dk2, s2, d2, nonce2, rid2, b1, b2] => some <| Id.run do
+    let some i1 := parseInput sk dk s d nonce rid a1 a2 | return bad
+    let some i2 := parseInput sk2 dk2 s2 d2 nonce2 rid2 b1 b2 | return bad
+    let m1 := relay i1
+    let m2 := relay i2
+    let ok := match impl.splitOn "|" with
+      | [o1, o2] => (match parseOut o1, parseOut o2 with
+          | some x, some y => decide (P01 i1 x) && decide (P01 i2 y)
+          | _, _ => false)
+      | _ => false
+    return ⟨showOut m1 ++ "|" ++ showOut m2, ok, s!"seq:{sk}>{dk},{sk2}>{dk2}:{outClass m1}:{outClass m2}"⟩
   | "e2e", [sk, dk, s, d, nonce, rid, a1, a2] => some <| Id.run do
     let some sk' := parseSk sk | return bad
     let some dk' := parseDk dk | return bad
